@@ -68,6 +68,20 @@ SITES = [
 ]
 
 
+# which property's theorems speak about which site (a fallback there makes that check search harder)
+SITE_PROPS = {'normalize_index': 'C11', 'pad_rule': 'C09', 'crop_readout': 'C15', 'filter_pad': 'C09', 'euler_axes': 'C12',
+              'sampling_kx': 'C09', 'sampling_ky': 'C09', 'sampling_kz': 'C09', 'sampling_flat': 'C09', 'sliceproj_start': 'C20',
+              'wavelet_level_shape': 'C09', 'kdata_shape': 'C14'}
+# properties whose correspondence exercises the same code although the theorem lives elsewhere
+SITE_ALSO = {'sampling_kx': ['C03', 'C01'], 'sampling_ky': ['C03', 'C01'], 'sampling_kz': ['C03', 'C01'], 'sampling_flat': ['C03', 'C01'],
+             'pad_rule': ['C03', 'C01'], 'normalize_index': ['C09']}
+
+
+def fallbacks_for(prop: str) -> dict:
+    st = status()
+    return {k: v for k, v in st.items() if v != 'translated' and (SITE_PROPS.get(k) == prop or prop in SITE_ALSO.get(k, []))}
+
+
 def _find(tree, cls, func):
     scope = tree
     if cls is not None:
